@@ -797,6 +797,14 @@ class _Frame:
             if full == "math.inf" or full == "torch.inf":
                 return self.sp.oo
             return TorchMarker(full)
+        if isinstance(base, ClassRef):
+            q_ = f"{base.node.name}.{a}"
+            if q_ in base.mod.functions:
+                return FuncRef(base.mod, base.mod.functions[q_], q_)
+            for st_ in base.node.body:
+                if isinstance(st_, ast.Assign) and len(st_.targets) == 1 and isinstance(st_.targets[0], ast.Name) and st_.targets[0].id == a:
+                    return _Frame(self.I, base.mod, {}).ev(st_.value)
+            raise AnalysisError(f"npsym: attribute `{a}` of class {base.node.name}")
         if isinstance(base, np.ndarray):
             if a == "shape":
                 return tuple(int(x) for x in base.shape)
@@ -843,6 +851,8 @@ class _Frame:
             if f.qual in I.stubs:
                 return I.stubs[f.qual](*args, **kwargs)
             return I._invoke(f, args, kwargs)
+        if isinstance(f, ClassRef) and getattr(I, "class_hook", None) is not None:
+            return I.class_hook(f, args, kwargs)
         if isinstance(f, ClassRef):
             if args or kwargs or any(isinstance(st, ast.FunctionDef) and st.name == "__init__" for st in f.node.body):
                 raise AnalysisError(f"npsym: construction of `{f.node.name}` with arguments / an __init__")
@@ -1340,7 +1350,25 @@ def _b_isinstance(fr, x, t):
     return False
 
 
+def _b_issubclass(fr, c, bases):
+    bases = bases if isinstance(bases, tuple) else (bases,)
+    if not isinstance(c, ClassRef) or not all(isinstance(b, ClassRef) for b in bases):
+        raise AnalysisError("npsym: issubclass of non-repository classes")
+    seen, todo = set(), [c]
+    while todo:
+        x = todo.pop()
+        if x.node.name in seen:
+            continue
+        seen.add(x.node.name)
+        for b in x.node.bases:
+            bn = b.id if isinstance(b, ast.Name) else None
+            if bn and bn in x.mod.classes:
+                todo.append(ClassRef(x.mod, x.mod.classes[bn]))
+    return any(b.node.name in seen for b in bases)
+
+
 BUILTINS: Dict[str, Any] = {
+    "issubclass": _b_issubclass,
     "range": _b_range, "len": _b_len, "enumerate": _b_enumerate, "zip": _b_zip, "int": _b_int, "float": _b_float,
     "bool": lambda fr, x=False: fr.truth(x), "tuple": lambda fr, x=(): tuple(fr.iterate(x, None)), "list": lambda fr, x=(): list(fr.iterate(x, None)),
     "dict": lambda fr, *a, **k: dict(*a, **k), "isinstance": _b_isinstance, "print": lambda fr, *a, **k: None,
